@@ -52,15 +52,22 @@ def program(draw):
         mixin = {'name': 'Mix', 'overrides': {}}
         for pn in draw(st.lists(st.sampled_from(pnames), min_size=1, max_size=2, unique=True)):
             mixin['overrides'][pn] = draw(partial_override(Ts[pn]))
-    nsub = draw(st.integers(1, 4))
+    nsub = draw(st.integers(1, 5))
+    # most programs concentrate their overrides on one parameter: leaks need several classes touching the same accessible
+    focus = draw(st.sampled_from(pnames + [None]))
     for i in range(nsub):
         name = 'BCDEF'[i]
         parent = draw(st.sampled_from([c['name'] for c in classes]))
         c = {'name': name, 'bases': ([mixin['name']] if mixin and draw(st.booleans()) else []) + [parent], 'overrides': {}, 'new': []}
-        for pn in draw(st.lists(st.sampled_from(pnames), max_size=3, unique=True)):
-            kind = draw(st.sampled_from(['partial', 'partial', 'bare', 'none', 'inherit-false', 'limit']))
+        chosen = draw(st.lists(st.sampled_from(pnames), max_size=3, unique=True))
+        if focus and focus not in chosen and draw(st.integers(0, 3)):
+            chosen.append(focus)
+        for pn in chosen:
+            kind = draw(st.sampled_from(['partial', 'partial', 'dtprop', 'bare', 'bare', 'none', 'inherit-false', 'limit']))
             if kind == 'partial':
                 c['overrides'][pn] = draw(partial_override(Ts[pn]))
+            elif kind == 'dtprop':
+                c['overrides'][pn] = draw(partial_override(Ts[pn], 'dtprop'))
             elif kind == 'bare':
                 c['overrides'][pn] = {'kind': 'bare', 'value': draw(specs.valid_value(Ts[pn]))}
             elif kind == 'none':
@@ -106,15 +113,17 @@ def program(draw):
 
 
 @st.composite
-def partial_override(draw, T):
-    kind = draw(st.sampled_from(['description', 'default', 'readonly', 'dtprop']))
+def partial_override(draw, T, kind=None):
+    kind = kind or draw(st.sampled_from(['description', 'default', 'readonly', 'dtprop']))
     o = {'kind': 'partial', 'what': kind}
     if kind == 'default':
         o['value'] = draw(specs.valid_value(T))
     elif kind == 'readonly':
         o['value'] = draw(st.booleans())
     elif kind == 'dtprop':
-        if T['k'] in ('double', 'int'):
+        if T['k'] == 'double' and draw(st.booleans()):
+            o['prop'], o['value'] = 'unit', draw(st.sampled_from(['K', 'mm']))
+        elif T['k'] in ('double', 'int'):
             o['prop'], o['value'] = 'max', draw(st.sampled_from([2, 77, 5000]))
         elif T['k'] == 'string':
             o['prop'], o['value'] = 'maxchars', max(T['min'], draw(st.sampled_from([2, 20])))
@@ -374,16 +383,29 @@ def diff_names(a, b):
     return f'{n}: {a.get(n)!r} -> {b.get(n)!r}'[:400]
 
 
-def permute(steps, order):
+def chain(prog, cname):
+    """names of the classes (and the mixin) a class is built from, itself included"""
+    bases = {c['name']: c['bases'] for c in prog['classes']}
+    res, stack = set(), [cname]
+    while stack:
+        cur = stack.pop()
+        if cur not in res:
+            res.add(cur)
+            stack.extend(bases.get(cur, []))
+    return res
+
+
+def permute(steps, order, prog):
     """dependency respecting permutation driven by the drawn priorities"""
+    bases_of = {c['name']: c['bases'] for c in prog['classes']}
     prio = list(order) + [0] * len(steps)
     done, out = set(), []
     remaining = list(range(len(steps)))
 
     def ready(i):
         s = steps[i]
-        if s['op'] == 'define':
-            return all(j in done for j in range(i) if steps[j]['op'] == 'define')   # classes keep their order (bases first)
+        if s['op'] == 'define':    # bases first, siblings in any order
+            return all(j in done for j in range(len(steps)) if steps[j]['op'] == 'define' and steps[j]['cls'] in bases_of.get(s['cls'], ()))
         if s['op'] == 'create':
             return any(j in done and steps[j]['op'] == 'define' and steps[j]['cls'] == s['cls'] for j in range(len(steps)))
         return all(j in done for j in range(i) if steps[j].get('inst') == s['inst'])
@@ -396,7 +418,21 @@ def permute(steps, order):
     return out
 
 
+def valid_program(prog):
+    try:
+        names = [c['name'] for c in prog['classes']]
+        for i, c in enumerate(prog['classes'][1:], 1):
+            if not c['bases'] or c['bases'][-1] not in names[:i] or (len(c['bases']) > 1 and (c['bases'][:-1] != ['Mix'] or not prog['mixin'])):
+                return False
+        defined = [s['cls'] for s in prog['steps'] if s['op'] == 'define']
+        return all(n in defined for n in names) and (not prog['mixin'] or 'Mix' in defined) and not prog['classes'][0]['bases']
+    except (KeyError, TypeError, IndexError):
+        return False
+
+
 def check_program(ctx, prog):
+    if not valid_program(prog):
+        return
     steps = prog['steps']
     classes_over = {}
     for c in prog['classes'][1:]:
@@ -414,7 +450,28 @@ def check_program(ctx, prog):
     final1 = execute(ctx, prog, steps, 'a')
     if final1 is None:
         return
-    steps2 = permute(steps, prog.get('order') or [])
+    # a class is a function of its own chain: define the chain alone, in a fresh world, and compare
+    for c in prog['classes'][1:]:
+        members = chain(prog, c['name'])
+        alone = [s for s in steps if s['op'] == 'define' and s['cls'] in members]
+        if len(alone) == sum(1 for s in steps if s['op'] == 'define'):
+            continue
+        ctx.ev()
+        world = World(prog, 'alone')
+        try:
+            for s in alone:
+                world.run_step(s)
+        except Exception as e:   # noqa
+            ctx.finding('chain:refused-when-defined-alone', dict(prog, steps=[s for s in steps if s['op'] == 'define'], order=[]),
+                        f'{c["name"]}: {type(e).__name__}: {e}'[:300])
+            continue
+        for key, snap in ((('class', c['name']), snap_class(world.classes[c['name']])), (('fresh', c['name']), fresh_snap(world, c['name']))):
+            if snap != final1.get(key):
+                ctx.finding(f'chain:{key[0]}-depends-on-other-classes', dict(prog, steps=[s for s in steps if s['op'] == 'define'], order=[]),
+                            f'{c["name"]} defined with only its own bases differs: {diff_names(snap, final1.get(key))}')
+            else:
+                ctx.ok('class-function-of-own-chain')
+    steps2 = permute(steps, prog.get('order') or [], prog)
     if steps2 == steps:
         ctx.label('permutation:identity')
         return
